@@ -1,6 +1,118 @@
 import Ptn.C03.Core
 import Ptn.C03.Tree
+import Ptn.C03.Value
 /-! Property theorems for C03.  `Core.lean`: gauge machine for arbitrary distance tables + the
 Mathlib instances.  `Tree.lean`: `canon_gauge_tree` — for every well-formed tree and every centre
 the hypotheses of `canon_gauge` hold for the distance table of the C17 model, so every non-centre
-node ends recorded as pointing to the first hop of its path to the centre. -/
+node ends recorded as pointing to the first hop of its path to the centre.  `Value.lean`: the value-level
+theorems (state unchanged by every run of `canonOps` / `moveOps` given the per-call QR contracts; norm from
+the centre tensor alone).  This file only adds the non-vacuity examples of the value-level theorems. -/
+namespace Ptn.C03
+
+open Ptn.Ein
+
+/-- two nodes `0 — 1`: node 0 has the open leg 0 and the bond leg 1, node 1 the bond leg 2 and the open
+leg 3; all dimensions 2; integer tensors (node 0 of rank one, so that its factorisation is explicit) -/
+def demoNet : VNet Int where
+  ids := [0, 1]
+  legs := fun k => if k = 0 then [0, 1] else if k = 1 then [2, 3] else []
+  tens := fun k σ => if k = 0 then ((σ 0 : Int) + 1) * (2 * (σ 1 : Int) + 1) else (σ 2 : Int) + 3 * (σ 3 : Int) + 1
+  bonds := [(1, 2)]
+  next := 4
+
+def demoDim : Nat → Nat := fun _ => 2
+
+theorem demoNet_wf : demoNet.WF := by
+  refine ⟨by decide, ?_, ?_, ?_, by decide, ?_, ?_⟩
+  · intro n hn
+    simp only [demoNet, List.mem_cons, List.not_mem_nil, or_false] at hn
+    rcases hn with rfl | rfl <;> simp [demoNet]
+  · intro n hn m hm l h1 h2
+    simp only [demoNet, List.mem_cons, List.not_mem_nil, or_false] at hn hm
+    rcases hn with rfl | rfl <;> rcases hm with rfl | rfl <;> simp [demoNet] at h1 h2 <;> omega
+  · intro n hn
+    simp only [demoNet, List.mem_cons, List.not_mem_nil, or_false] at hn
+    rcases hn with rfl | rfl
+    · intro σ τ h
+      have h0 := h 0 (by simp [demoNet]); have h1 := h 1 (by simp [demoNet])
+      simp [demoNet, h0, h1]
+    · intro σ τ h
+      have h2 := h 2 (by simp [demoNet]); have h3 := h 3 (by simp [demoNet])
+      simp [demoNet, h2, h3]
+  · intro p hp
+    simp only [demoNet, List.mem_cons, List.not_mem_nil, or_false] at hp
+    subst hp
+    exact ⟨⟨0, by simp [demoNet], by simp [demoNet]⟩, ⟨1, by simp [demoNet], by simp [demoNet]⟩⟩
+  · intro n hn l hl
+    simp only [demoNet, List.mem_cons, List.not_mem_nil, or_false] at hn
+    rcases hn with rfl | rfl <;> simp [demoNet] at hl ⊢ <;> omega
+
+/-- an exact factorisation of the tensor of node 0 over the fresh bond `(4, 5)` -/
+def demoFact : QRFact demoDim (demoNet.tens 0) (demoNet.legs 0) 1 demoNet.next (demoNet.next + 1) where
+  Q := fun ρ => ((ρ 0 : Int) + 1) * (if ρ 4 = 0 then 1 else 0)
+  Rm := fun ρ => (if ρ 5 = 0 then 1 else 0) * (2 * (ρ 1 : Int) + 1)
+  exact := by
+    intro τ
+    simp [demoNet, demoDim, sumPairs, sumR, upd, List.range_succ]
+  readsQ := by
+    intro σ τ h
+    have h0 := h 0 (by simp [demoNet]); have h4 := h 4 (by simp [demoNet])
+    simp [h0, h4]
+  readsR := by
+    intro σ τ h
+    have h5 := h 5 (by simp [demoNet]); have h1 := h 1 (by simp)
+    simp [h5, h1]
+
+/-- the premises of `move_centre_value` / `canonical_form_value` are satisfiable: the centre move `0 → 1`
+(which is also the run of `canonical_form` toward node 1) has a run on the demo network -/
+example : demoNet.WF ∧ moveOps [0, 1] = [⟨0, 1⟩] ∧
+    canonOps [(1, 0), (0, 1)] (fun n => if n = 0 then [1] else [0]) = [⟨0, 1⟩] ∧
+    ∃ N', Run demoDim demoNet (moveOps [0, 1]) N' := by
+  refine ⟨demoNet_wf, by decide, by decide, _, Run.cons (Step.mk demoNet 0 1 (1, 2) 1 2 (by simp [demoNet])
+    (by simp [demoNet]) (by decide) ⟨by simp [demoNet], Or.inl rfl, by simp [demoNet], by simp [demoNet]⟩
+    demoFact) (Run.nil _)⟩
+
+/-- the adjacency premise of the progress theorems holds on the demo network -/
+example : demoNet.Adj 0 1 ∧ (0 : Nat) ≠ 1 :=
+  ⟨⟨by simp [demoNet], by simp [demoNet], (1, 2), 1, 2, by simp [demoNet], Or.inl rfl, by simp [demoNet],
+    by simp [demoNet]⟩, by decide⟩
+
+/-! ### the norm network of two tensors: `Q = δ(p, q)` is an isometry toward the centre -/
+
+def nQ : Asg Nat → Int := fun ρ => if ρ 0 = ρ 1 then 1 else 0       -- legs p = 0, q = 1
+def nQc : Asg Nat → Int := fun ρ => if ρ 2 = ρ 3 then 1 else 0      -- legs p' = 2, q' = 3
+def nC : Asg Nat → Int := fun ρ => (ρ 4 : Int) + 2 * (ρ 6 : Int) + 1   -- legs r = 4, open 6
+def nCc : Asg Nat → Int := fun ρ => (ρ 5 : Int) + 2 * (ρ 7 : Int) + 1  -- legs r' = 5, open 7
+
+theorem demo_iso : ∀ τ : Asg Nat, τ 1 < demoDim 1 → τ 3 < demoDim 1 →
+    sumPairs demoDim [(0, 2)] (fun ρ => nQ ρ * nQc ρ) τ = if τ 1 = τ 3 then 1 else 0 := by
+  intro τ h1 h3
+  simp only [demoDim] at h1 h3
+  have e1 : τ 1 = 0 ∨ τ 1 = 1 := by omega
+  have e3 : τ 3 = 0 ∨ τ 3 = 1 := by omega
+  rcases e1 with e1 | e1 <;> rcases e3 with e3 | e3 <;>
+    simp [demoDim, nQ, nQc, sumPairs, sumR, upd, List.range_succ, e1, e3]
+
+/-- the hypotheses of `centre_norm_two` (and of one `Absorb` step of `centre_norm_value_partial`) are
+satisfiable -/
+example : (∀ τ : Asg Nat, τ 1 < demoDim 1 → τ 3 < demoDim 1 →
+      sumPairs demoDim [(0, 2)] (fun ρ => nQ ρ * nQc ρ) τ = if τ 1 = τ 3 then 1 else 0) ∧
+    DependsOn (fun l => 4 ≤ l) nC ∧ DependsOn (fun l => 4 ≤ l) nCc ∧
+    (∀ l ∈ Expr.pairLegs [((0 : Nat), (2 : Nat))], ¬ 4 ≤ l) ∧
+    AbsorbRun demoDim (([(6, 7)] ++ [(1, 4), (3, 5)]) ++ [(0, 2)], [nQ, nQc, nC, nCc])
+      ([(6, 7)] ++ [(4, 5)], [nC, nCc]) := by
+  have hC : DependsOn (fun l => 4 ≤ l) nC := by
+    intro σ τ h; simp [nC, h 4 (by omega), h 6 (by omega)]
+  have hCc : DependsOn (fun l => 4 ≤ l) nCc := by
+    intro σ τ h; simp [nCc, h 5 (by omega), h 7 (by omega)]
+  have hpp : ∀ l ∈ Expr.pairLegs [((0 : Nat), (2 : Nat))], ¬ 4 ≤ l := by
+    intro l hl; simp [Expr.pairLegs] at hl; omega
+  refine ⟨demo_iso, hC, hCc, hpp, AbsorbRun.cons ?_ (AbsorbRun.nil _)⟩
+  exact Absorb.mk _ _ [(6, 7)] [(0, 2)] nQ nQc [nC, nCc] 1 4 3 5 (fun l => 4 ≤ l) (List.Perm.refl _)
+    (List.Perm.refl _) demo_iso
+    (by intro f hf; simp only [List.mem_cons, List.not_mem_nil, or_false] at hf
+        rcases hf with rfl | rfl
+        · exact hC
+        · exact hCc) hpp (by omega) (by omega) rfl rfl
+
+end Ptn.C03
